@@ -453,6 +453,8 @@ func Run(cfg *common.Config) (*common.Report, error) {
 	lap("hashvalue")
 	d.pathStream()
 	lap("paths")
+	d.hostileCredentialStream()
+	lap("hostile-credentials")
 	if err := d.gobStream(); err != nil {
 		return nil, err
 	}
@@ -605,6 +607,8 @@ func (d *drv) replay() error {
 		d.cases = nil
 	case "path", "path-string", "path-index", "slot-path", "ser-attr", "degenerate-path", "degenerate-slot-path":
 		d.pathStream()
+	case "hostile-credential":
+		d.hostileCredentialStream()
 	case "raw-decode":
 		var in rawInput
 		if err := json.Unmarshal(rf.Input, &in); err != nil {
